@@ -111,6 +111,7 @@ func newReqIO(sim *core.Sim, id int, name string, weight int) *ReqIO {
 	io := &ReqIO{sim: sim, ID: id, Name: name, hdr: http.Header{}}
 	io.bodySlot = sim.NewSlot(name+".body", weight)
 	io.rwSlot = sim.NewSlot(name+".rw", weight)
+	io.rwSlot.QueueOK = "conn.write" // a hijacked net.Conn serialises concurrent Write calls
 	io.ctx, io.cancel = context.WithCancel(context.Background())
 	return io
 }
